@@ -163,6 +163,22 @@ fn body(space: Space) -> impl Fn(&Ch) -> Run + Sync + Send {
             }
           }
         }
+        // (a') a segment of the segment equals the segment of the original
+        // (only where neither graph has `sub` as a root: segmenting at a subset
+        // of a graph's own roots is a plain clone, which the statement allows)
+        for sub in holders.iter().filter(|h| seg.contains(h) && !seg.roots.contains(*h) && !g.roots.contains(*h)).take(3) {
+          let nested = seg.segment(std::slice::from_ref(sub));
+          let flat = g.segment(std::slice::from_ref(sub));
+          let (a, b) = (listing(&nested), listing(&flat));
+          if a != b || nested.redirects != flat.redirects {
+            let omitted = listing(&g).keys().any(|k| !listing(&seg).contains_key(k) && skipped_by_types_only_walk(k));
+            run.violate(
+              if omitted { OMITS.to_string() } else { format!("segment-of-segment-differs@{kind:?}") },
+              format!("segment([{sub}]) of the segment differs from segment([{sub}]) of the original: {a:?} vs {b:?}"),
+              case(),
+            );
+          }
+        }
         // (b) same validation verdict from those roots
         for follow_dynamic in [false, true] {
           let opts = || WalkOptions {
@@ -309,6 +325,7 @@ pub fn prop(tier: Tier) -> Prop {
     assumptions: vec![
       "entries compared by module kind / error kind (not by error referrer)".into(),
       "direct builds use the same options (unstable text/bytes on, dynamic deps followed)".into(),
+      "segmenting a segment at up to three contained modules that are roots of neither graph must equal segmenting the original there (at a subset of a graph's own roots segment() returns a clone, which the statement allows)".into(),
       "segment roots are specifiers whose imports carry no `type` attribute (a root is an attribute-less import; same-attribute proviso as C01/C19)".into(),
       "type-only targets are only required to be present when the graph kind includes types".into(),
     ],
